@@ -2,6 +2,7 @@
 //! generated or replayed operation sequences and writes a transcript that the Lean driver
 //! (/verif/lean/Driver.lean) replays through the formal model.
 mod action;
+mod candle;
 mod flat;
 mod gen;
 mod methods;
@@ -59,6 +60,7 @@ fn main() {
 		match suite.as_str() {
 			"window" => window::suite(&mut out, seed, thorough),
 			"action" => action::suite(&mut out, seed, thorough),
+			"candle" => candle::suite(&mut out, seed, thorough),
 			"methods" => {
 				let filter: Vec<String> = arg(&args, "--methods")
 					.map(|s| s.split(',').map(|x| x.to_string()).collect())
@@ -79,6 +81,7 @@ fn dispatch_replay(out: &mut Out, _suite: &str, id: u64, comp: &str, lines: &[St
 		"window" => window::run_program(out, id, &lines[1..].to_vec()),
 		"method" => methods::replay_case(out, id, lines),
 		"action" => action::replay_case(out, id, lines),
+		"candle" => candle::replay_case(out, id, lines),
 		other => panic!("replay: unknown component {other}"),
 	}
 }
